@@ -36,7 +36,11 @@ type CtxV struct {
 type ObjV struct {
 	Path string
 	Ty   types.Type
+	Over *objOver // fields written by the code under verification (an object built by a constructor), nil otherwise
 }
+
+// objOver: the fields a constructor has stored into a freshly allocated object; immutable once shared (copied on write).
+type objOver struct{ f map[int]Value }
 
 type PathElem struct {
 	Field   int
